@@ -6,6 +6,7 @@ HERE = os.path.dirname(os.path.abspath(__file__))
 ROOT = os.path.dirname(HERE)
 LEAN = os.path.join(ROOT, 'lean')
 REPO = os.environ.get('PMN_REPO', '/repo')
+OUT = os.environ.get('PMN_OUT', ROOT)      # evidence/ and replays/ go here (set only for experiments on scratch copies)
 DRIVER = os.path.join(LEAN, '.lake', 'build', 'bin', 'pmn-driver')
 ALLOWED_AXIOMS = {'propext', 'Classical.choice', 'Quot.sound'}
 FORBIDDEN = re.compile(r'\b(sorry|admit|native_decide|bv_decide|implemented_by|unsafe)\b'
@@ -342,9 +343,9 @@ class Check:
         replay['failing_input_found'] = bool(found_input)
         blob = json.dumps(replay, sort_keys=True, default=str)
         h = hashlib.sha1(blob.encode()).hexdigest()[:10]
-        os.makedirs(os.path.join(ROOT, 'replays'), exist_ok=True)
+        os.makedirs(os.path.join(OUT, 'replays'), exist_ok=True)
         path = os.path.join('replays', '%s-%s.json' % (self.pid, h))
-        with open(os.path.join(ROOT, path), 'w') as f:
+        with open(os.path.join(OUT, path), 'w') as f:
             json.dump(replay, f, indent=1, sort_keys=True, default=str)
         self.violations.append(path)
         tail = '' if found_input else ' no-failing-input-found'
@@ -362,8 +363,8 @@ class Check:
         ev = dict(property_id=self.pid, tier=self.tier, seed=self.seed, level=self.level,
                   coverage=cov, assumptions=self.assumptions,
                   wall_s=round(time.time() - self.t0, 2), violations=len(self.violations))
-        os.makedirs(os.path.join(ROOT, 'evidence'), exist_ok=True)
-        with open(os.path.join(ROOT, 'evidence', self.pid + '.json'), 'w') as f:
+        os.makedirs(os.path.join(OUT, 'evidence'), exist_ok=True)
+        with open(os.path.join(OUT, 'evidence', self.pid + '.json'), 'w') as f:
             json.dump(ev, f, indent=1, default=str)
         print('%s %s tier=%s seed=%d evaluations=%d distinct=%d obligations=%d/%d violations=%d known=%d wall=%.1fs'
               % (self.pid, 'OK' if not self.violations else 'FAIL', self.tier, self.seed,
